@@ -24,6 +24,10 @@ type concCall struct {
 	Hadd  [][2]string `json:"hadd"`  // response headers the handler adds for this call (hex pairs)
 	Size  int         `json:"size"`  // reply payload bytes
 	Delay int         `json:"delay"` // handler delay in microseconds
+	// Onward: between its first and its remaining response headers the handler makes a two-way call of its own WITH
+	// THE CONTEXT IT WAS GIVEN (to the method "leaf" of the same server, over a second connection); the leaf handler
+	// adds the response header leaf=<cid>, which travels back through the handler's context to the first caller
+	Onward bool `json:"onward"`
 }
 
 type concReq struct {
@@ -45,8 +49,19 @@ type concResp struct {
 type concFn struct {
 	*frugal.FBaseProcessorFunction
 	mu    sync.Mutex
-	byCid map[string]concCall
-	seen  map[string][][2]string
+	byCid  map[string]concCall
+	seen   map[string][][2]string
+	onward *frugal.FStandardClient
+}
+
+type leafFn struct{ *frugal.FBaseProcessorFunction }
+
+func (e *leafFn) Process(fctx frugal.FContext, in, out *frugal.FProtocol) error {
+	bg := context.Background()
+	in.Skip(bg, thrift.STRUCT)
+	in.ReadMessageEnd(bg)
+	fctx.AddResponseHeader("leaf", fctx.CorrelationID())
+	return e.SendReply(fctx, out, "leaf", echoResult{})
 }
 
 func (e *concFn) Process(fctx frugal.FContext, in, out *frugal.FProtocol) error {
@@ -61,8 +76,18 @@ func (e *concFn) Process(fctx frugal.FContext, in, out *frugal.FProtocol) error 
 	if c.Delay > 0 {
 		time.Sleep(time.Duration(c.Delay) * time.Microsecond)
 	}
-	for _, kv := range c.Hadd {
+	for i, kv := range c.Hadd {
+		if i == 1 && c.Onward {
+			if err := e.onward.Call(fctx, "leaf", echoResult{}, echoResult{}); err != nil {
+				fctx.AddResponseHeader("onward-error", err.Error())
+			}
+		}
 		fctx.AddResponseHeader(unhex(kv[0]), unhex(kv[1]))
+	}
+	if len(c.Hadd) < 2 && c.Onward {
+		if err := e.onward.Call(fctx, "leaf", echoResult{}, echoResult{}); err != nil {
+			fctx.AddResponseHeader("onward-error", err.Error())
+		}
 	}
 	return e.SendReply(fctx, out, "echo", echoResult{payload: make([]byte, c.Size)})
 }
@@ -78,6 +103,7 @@ func runConcurrent(q concReq) concResp {
 		fn.byCid[unhex(c.Cid)] = c
 	}
 	bp.AddToProcessorMap("echo", fn)
+	bp.AddToProcessorMap("leaf", &leafFn{frugal.NewFBaseProcessorFunction(bp.GetWriteMutex(), nil)})
 	st, err := thrift.NewTServerSocket("127.0.0.1:0")
 	if err != nil {
 		r.Err = err.Error()
@@ -102,6 +128,18 @@ func runConcurrent(q concReq) concResp {
 	}
 	defer tr.Close()
 	client := frugal.NewFStandardClient(frugal.NewFServiceProvider(tr, pf))
+	conn2, err := net.Dial("tcp", st.Addr().String())
+	if err != nil {
+		r.Err = err.Error()
+		return r
+	}
+	tr2 := frugal.NewAdapterTransport(thrift.NewTSocketFromConnConf(conn2, &thrift.TConfiguration{}))
+	if err := tr2.Open(); err != nil {
+		r.Err = err.Error()
+		return r
+	}
+	defer tr2.Close()
+	fn.onward = frugal.NewFStandardClient(frugal.NewFServiceProvider(tr2, pf))
 	rounds := q.Rounds
 	if rounds <= 0 {
 		rounds = 1
